@@ -65,3 +65,57 @@ func init() {
 		return TupleV{IfaceV{}, tFalse}
 	})
 }
+
+// metav1.LabelSelectorAsSelector: the selector only travels to the API server stand-in (which returns what the
+// harness decides matches); its construction (regexp-validated requirements) is not modelled.  The result is an
+// opaque non-nil labels.Selector, nil selector input gives labels.Nothing() — also opaque.
+func init() {
+	interceptTable["k8s.io/apimachinery/pkg/apis/meta/v1.LabelSelectorAsSelector"] = func(ex *Exec, fr *frame, fn *ssa.Function, args []Value, pos tokenPos) Value {
+		t := ex.eng.lookupType("k8s.io/apimachinery/pkg/labels", "internalSelector")
+		if t == nil {
+			ex.unsupported("labels.internalSelector type not loaded")
+		}
+		return TupleV{IfaceV{t: t, v: ex.zero(t)}, IfaceV{}}
+	}
+}
+
+// (*runtime.Scheme).ObjectKinds: the scheme's type registry is reflection-driven; for the typed workload objects the
+// controllers handle the answer is the fixed registration of client-go / kruise-api, tabulated here.
+var schemeKinds = map[string][3]string{
+	"k8s.io/api/apps/v1.Deployment":                               {"apps", "v1", "Deployment"},
+	"k8s.io/api/apps/v1.StatefulSet":                              {"apps", "v1", "StatefulSet"},
+	"k8s.io/api/apps/v1.ReplicaSet":                               {"apps", "v1", "ReplicaSet"},
+	"k8s.io/api/apps/v1.DaemonSet":                                {"apps", "v1", "DaemonSet"},
+	"github.com/openkruise/kruise-api/apps/v1alpha1.CloneSet":     {"apps.kruise.io", "v1alpha1", "CloneSet"},
+	"github.com/openkruise/kruise-api/apps/v1alpha1.DaemonSet":    {"apps.kruise.io", "v1alpha1", "DaemonSet"},
+	"github.com/openkruise/kruise-api/apps/v1beta1.StatefulSet":   {"apps.kruise.io", "v1beta1", "StatefulSet"},
+	"github.com/openkruise/rollouts/api/v1beta1.Rollout":          {"rollouts.kruise.io", "v1beta1", "Rollout"},
+	"github.com/openkruise/rollouts/api/v1beta1.BatchRelease":     {"rollouts.kruise.io", "v1beta1", "BatchRelease"},
+}
+
+func init() {
+	interceptTable["(*k8s.io/apimachinery/pkg/runtime.Scheme).ObjectKinds"] = func(ex *Exec, fr *frame, fn *ssa.Function, args []Value, pos tokenPos) Value {
+		iv, ok := args[1].(IfaceV)
+		if !ok || iv.t == nil {
+			ex.unsupported("Scheme.ObjectKinds(nil)")
+		}
+		pt, ok := iv.t.(*types.Pointer)
+		if !ok {
+			ex.unsupported("Scheme.ObjectKinds on non-pointer " + iv.t.String())
+		}
+		nt, ok := pt.Elem().(*types.Named)
+		if !ok || nt.Obj().Pkg() == nil {
+			ex.unsupported("Scheme.ObjectKinds on " + iv.t.String())
+		}
+		k, ok := schemeKinds[nt.Obj().Pkg().Path()+"."+nt.Obj().Name()]
+		if !ok {
+			ex.unsupported("Scheme.ObjectKinds: type not tabulated: " + nt.String())
+		}
+		gvkT := ex.eng.lookupType("k8s.io/apimachinery/pkg/runtime/schema", "GroupVersionKind")
+		if gvkT == nil {
+			ex.unsupported("schema.GroupVersionKind type not loaded")
+		}
+		gvk := StructV{[]Value{mkStr(k[0]), mkStr(k[1]), mkStr(k[2])}}
+		return TupleV{ex.mkSlice(gvkT, []Value{gvk}), tFalse, IfaceV{}}
+	}
+}
